@@ -88,7 +88,7 @@ func run(t *tape.Tape, cfg sim.Config, listen bool) (res sim.Result) {
 	if cfg.Class == "deep" {
 		return runDeep(r, &res)
 	}
-	o := plan.Opts{MinFuncs: 3, MaxFuncs: 8, MaxAtoms: 6, Host: true, Traps: true, Exit: true, Grow: true, Table: true, Segments: true, HostTags: 4, GRef: true, Atomics: true}
+	o := plan.Opts{MinFuncs: 3, MaxFuncs: 8, MaxAtoms: 6, Host: true, Traps: true, Exit: true, Grow: true, Table: true, Segments: true, HostTags: 4, GRef: true, Atomics: true, Wide: true}
 	switch cfg.Class {
 	case "faultfree":
 		r.opts = classOpts{}
